@@ -218,6 +218,14 @@ def rand_dom(rng, lo=-4, hi=5):
     k = rng.randint(1, 4)
     return ",".join(map(str, sorted(set(rng.randint(lo, hi) for _ in range(k)))))
 
+def dom_values(d):
+    d = d.strip()
+    if d == "b": return [0, 1]
+    if ".." in d:
+        a, b = d.split(".."); return list(range(int(a), int(b) + 1))
+    try: return [int(x) for x in d.split(",")]
+    except ValueError: return None
+
 def dom_size(d):
     if d == "b": return 2
     if ".." in d:
